@@ -14,6 +14,17 @@ use std::sync::Arc;
 
 // ---------------------------------------------------------------------------------------------- (a)
 fn rows_check(i: u64, col: &Collector) {
+    // a panic inside the row primitives (arithmetic overflow, index out of bounds) is a finding, not a machinery error
+    let c2 = col.clone();
+    if let Err(e) = std::panic::catch_unwind(std::panic::AssertUnwindSafe(|| rows_check_inner(i, &c2))) {
+        let m = e.downcast_ref::<String>().cloned().or_else(|| e.downcast_ref::<&str>().map(|s| s.to_string())).unwrap_or_default();
+        let b = i & 0xff;
+        let pos = (i >> 10) & 3;
+        col.violation(violation("panic", "panic:sketch:row-primitive", format!("a row primitive panicked on byte {:#04x} at position {}: {}", b, pos, m), json!({"row": [b], "position": pos})));
+    }
+}
+
+fn rows_check_inner(i: u64, col: &Collector) {
     // case i = (byte value b, neighbour byte nb, position 0..4) on a two-byte row
     let b = (i & 0xff) as u8;
     let nb = match (i >> 8) & 3 {
